@@ -168,7 +168,10 @@ func main() {
 	}
 
 	if err := app.Run(os.Args); err != nil {
-		fmt.Fprint(os.Stderr, err)
+		// errors wrapped in cli.Exit have already ended the process with their own code;
+		// what arrives here are usage errors (unknown flag or command, stray arguments, invalid flag value) and plain I/O errors
+		fmt.Fprintln(os.Stderr, err)
+		os.Exit(exitCodeErrOpts)
 	}
 }
 
